@@ -289,7 +289,7 @@ def run_model(lines):
     return res
 
 
-def run_cli(bin_path, cases, threads=NPROC):
+def run_cli(bin_path, cases, threads=NPROC, retry=True):
     """cases: list of (argv list of bytes/str, stdin bytes) -> list of (status str, stdout bytes)"""
     lines = []
     for argv, stdin in cases:
@@ -303,7 +303,12 @@ def run_cli(bin_path, cases, threads=NPROC):
         parts = out[i].split(" ") if i < len(out) else ["missing"]
         st = parts[0]
         so = bytes.fromhex(parts[1]) if len(parts) > 1 and parts[1] else b""
-        res.append((st, so))
+        res.append((st if st else "missing", so))
+    miss = [i for i, (st, _) in enumerate(res) if st == "missing"]
+    if miss and retry:
+        # the spawner itself lost these: once more, on their own, before anything is concluded from them
+        for i, r in zip(miss, run_cli(bin_path, [cases[i] for i in miss], threads, retry=False)):
+            res[i] = r
     return res
 
 
